@@ -602,6 +602,22 @@ func propOne(c Case) error {
 			if nr.HasIntersection() != (wantKind != exact.NoInt) {
 				return fmt.Errorf("non-robust, variant %d of %v: HasIntersection = %v, exact type %v", vi, show(c), nr.HasIntersection(), lineintersection.Type(wantKind))
 			}
+			// the same configuration in other units: every ordinate times a power of two
+			// stays exactly representable, and so does every difference, product of two
+			// differences and sum of such products between 2^-1022 and 2^1023 (whole
+			// numbers within 2^25 times 2^e, -330 <= e <= 300: products of three stay in
+			// range as well), so the answer is the same
+			for _, e := range []int{-330, -300, -269, -200, -64, 64, 200, 300} {
+				sc := func(i int) geom.Coord {
+					o := coi(c, i)
+					o[0], o[1] = math.Ldexp(o[0], e), math.Ldexp(o[1], e)
+					return o
+				}
+				ns := lineintersector.LineIntersectsLine(lineintersector.NonRobustLineIntersector{}, sc(idx[0]), sc(idx[1]), sc(idx[2]), sc(idx[3]))
+				if ns.HasIntersection() != (wantKind != exact.NoInt) {
+					return fmt.Errorf("non-robust, variant %d of %v times 2^%d: HasIntersection = %v, exact type %v", vi, show(c), e, ns.HasIntersection(), lineintersection.Type(wantKind))
+				}
+			}
 		}
 	}
 	if c.P != before {
